@@ -5,6 +5,7 @@ Spec: specs/backoff/Backoff.tla (exact rationals), BackoffMC (parameter grid row
 import json
 import time
 from fractions import Fraction
+from decimal import Decimal
 
 from harness import core
 from harness.core import SPECS, Stats, Verdict, tlc_must_pass
@@ -165,8 +166,21 @@ def float_laws(seed, n):
         sp = rng.choice([st0 + rng.uniform(0, 50) if st0 else rng.uniform(1e-3, 50), st0 * f ** rng.randint(0, 12) if st0 else f ** rng.randint(-3, 8), max(st0, 1e6)])
         if sp >= st0 and sp > 0:
             points.append((st0, sp, f))
+    # magnitudes at the ends of the float range (the ratio stop/start is not a float any more), a factor a few ulps
+    # above 1 with the stop a few ulps above the start, a negative zero start
+    points += [(1e-308, 1e308, 10.0), (1e-300, 1e300, 1e100), (1e-310, 1.0, 10.0), (1e-6, 1e300, 1e50), (2.5e-308, 1.7e308, 3.0),
+               (0.0, 1e308, 1e77), (1.0, 1.0 + 8 * 2.0 ** -52, math.nextafter(1.0, 2.0)), (3.0, 3.0 * (1 + 1e-12) ** 5, 1 + 1e-12),
+               (-0.0, 5.0, 2.0), (-0.0, 0.5, 3.0)]
+    import signal
+
+    class Stuck(Exception):
+        pass
+
+    def on_alarm(signum, frame):
+        raise Stuck()
+    old_handler = signal.signal(signal.SIGALRM, on_alarm)
     for st0, sp, f in points:
-        steps = 0 if (st0 or 1) >= sp else math.log(sp / (st0 or 1), f)
+        steps = 0 if (st0 or 1) >= sp else (math.log(sp, f) - math.log(st0 or 1, f))
         if steps > 3000:
             continue
         for default, count in ((True, None), (False, rng.choice([0, 1, 2, 7, 30]))):
@@ -175,8 +189,20 @@ def float_laws(seed, n):
                     kw = {} if default else {"count": count}
                     if f != 2.0 or rng.random() < 0.5:
                         kw["factor"] = f
-                    vals = list(fn(st0, sp, **kw)) if rng.random() < 0.7 or default else list(fn(st0, sp, count, f))
+                    signal.alarm(20)          # a call that does not come back is a failure, not a hung check
+                    form = rng.random()
+                    if form < 0.6 or default and form < 0.8:
+                        vals = list(fn(st0, sp, **kw))
+                    elif default:
+                        vals = list(fn(stop=sp, start=st0, **kw))                 # everything by keyword
+                    else:
+                        vals = list(fn(st0, sp, count, f) if form < 0.8 else fn(st0, sp, count, f, False))     # all positional
+                    signal.alarm(0)
+                except Stuck:
+                    bad.append((label, {"start": st0, "stop": sp, "factor": f, "count": count, "why": "does not terminate"}))
+                    continue
                 except Exception as ex:
+                    signal.alarm(0)
                     bad.append((label, {"start": st0, "stop": sp, "factor": f, "count": count, "why": "raised:" + core.exc_name(ex)}))
                     continue
                 w = laws(vals, st0, sp, f, count, default)
@@ -200,9 +226,50 @@ def float_laws(seed, n):
             else:
                 if not jf and got != base:
                     bad.append(("backoff_iter(jitter)", {"start": st0, "stop": sp, "factor": f, "jitter": repr(j), "why": "zero jitter changes values"}))
+        # the default count with jitter, through both functions: same length as un-jittered, every value in its interval
+        try:
+            base = list(it.backoff_iter(st0, sp, factor=f)) if steps <= 200 else None
+        except Exception:
+            base = None             # reported above by the default-count law
+        if base is not None:
+            for j in (True, -1, 0.25, Fraction(1, 2)):
+                jf = float(j)
+                for label, fn in (("backoff", it.backoff), ("backoff_iter", it.backoff_iter)):
+                    g_ = list(fn(st0, sp, factor=f, jitter=j))
+                    if len(g_) != len(base) or any(not (min(b, b * (1 - jf)) <= x <= max(b, b * (1 - jf))) for x, b in zip(g_, base)):
+                        bad.append((label + "(jitter)", {"start": st0, "stop": sp, "factor": f, "jitter": repr(j), "why": "default count with jitter: outside the interval or other length",
+                                                         "got": g_[:8], "unjittered": base[:8]}))
+    signal.signal(signal.SIGALRM, old_handler)
+    # arguments of the other numeric types are the same numbers
+    for st0, sp, f, cnt in ((1, 100, 10, None), (Fraction(1, 4), Fraction(33, 2), Fraction(3, 2), 7), (Decimal("0.5"), Decimal("40"), Decimal("3"), None),
+                            (True, 9, 3, 4), ("1", "8", "2", None), (0, Fraction(5, 2), 2, 5), (2, 2, 1, 3)):
+        for label, fn in (("backoff", it.backoff), ("backoff_iter", it.backoff_iter)):
+            try:
+                kw = {} if cnt is None else {"count": cnt}
+                got = list(fn(st0, sp, factor=f, **kw))
+                ref = list(fn(float(st0), float(sp), factor=float(f), **kw))
+                w = laws(got, float(st0), float(sp), float(f), cnt, cnt is None)
+                if got != ref or w:
+                    bad.append((label + "(number-types)", {"start": repr(st0), "stop": repr(sp), "factor": repr(f), "count": cnt, "why": w or "differs from the float call", "got": got[:8]}))
+            except Exception as ex:
+                bad.append((label + "(number-types)", {"start": repr(st0), "stop": repr(sp), "factor": repr(f), "count": cnt, "why": "raised:" + core.exc_name(ex)}))
+    # two generators alive at once do not share anything
+    a_, b_ = it.backoff_iter(1.0, 50.0, factor=3.0, count=8), it.backoff_iter(1.0, 50.0, factor=3.0, count=8)
+    inter = [x for pair in zip(a_, b_) for x in pair]
+    solo = list(it.backoff_iter(1.0, 50.0, factor=3.0, count=8))
+    if inter[0::2] != solo or inter[1::2] != solo:
+        bad.append(("backoff_iter(interleaved)", {"why": "two live generators influence each other", "got": inter}))
+    # backoff() has no endless form: 'repeat' is refused at once
+    try:
+        it.backoff(1.0, 8.0, count="repeat")
+        bad.append(("backoff(invalid)", {"why": "count='repeat' accepted by backoff()"}))
+    except ValueError:
+        pass
+    except Exception as ex:
+        bad.append(("backoff(invalid)", {"why": "count='repeat' raised:" + core.exc_name(ex)}))
     # a hair outside the valid ranges, with every count form: ValueError before anything is yielded
     tiny = 5e-324
-    for args, kw in (((-tiny, 1.0), {}), ((1.0, -1.0), {}), ((0.0, 0.0), {}), ((0.0, -0.0), {}), ((2.0, math.nextafter(2.0, 0.0)), {}),
+    for args, kw in (((-1, 1), {}), ((Fraction(-1, 3), 2), {}), ((1, 8), {"factor": Fraction(1, 2)}), ((-tiny, 1.0), {}), ((1.0, -1.0), {}), ((0.0, 0.0), {}), ((0.0, -0.0), {}), ((2.0, math.nextafter(2.0, 0.0)), {}),
                      ((1.0, 8.0), {"factor": math.nextafter(1.0, 0.0)}), ((1.0, 8.0), {"jitter": math.nextafter(1.0, 2.0)}),
                      ((1.0, 8.0), {"jitter": math.nextafter(-1.0, -2.0)}), ((1.0, 8.0), {"jitter": 2})):
         for count in (None, 0, 3, "repeat", -1):
